@@ -12,7 +12,7 @@
      obs_ok                validator applied to what the harness observed on gnpy (batch, every request alone,
                            permutations; network digests before / after) *)
 From Coq Require Import QArith Permutation.
-From Verif Require Import Prelude Model.Verdict Model.Batch Proofs.Verdict Proofs.Batch.
+From Verif Require Import Prelude Model.Verdict Model.Batch Proofs.Verdict Proofs.Batch Gen.BatchGen Proofs.BatchGen.
 From Verif Require Model.Spectrum Proofs.SpectrumBase Proofs.Spectrum3 Proofs.Spectrum5 Proofs.Spectrum6 Proofs.BatchSpectrum.
 Open Scope Z_scope.
 
@@ -118,6 +118,41 @@ Theorem shared_amplifier_keeps_its_clamp : forall g0 pmax pins,
   Sorted.StronglySorted (fun a b => (b <= a)%Q) (running pmax g0 pins).
 Proof. intros. split; [apply Proofs.Verdict.shared_history | apply Proofs.Verdict.running_decreasing]. Qed.
 Print Assumptions shared_amplifier_keeps_its_clamp.
+
+(* ---- translator tie: what /repo's SOURCE does at the isolation points (Gen/BatchGen.v, regenerated from the source on
+   every run by harness/pygen_c16.py) selects the pipeline these theorems are about ---- *)
+(* compute_path_with_disjunction propagates both directions on per-request deep copies and appends exactly one result per
+   request: the source-selected pipeline is `planning`, so the network is handed on unchanged and every result is the
+   evaluation of the request alone *)
+Theorem C16_source_pipeline_is_planning : forall SS A (assign : SS -> request -> bool -> SS * A) n ss rqs,
+  planning_src g_copy_forward g_copy_reverse assign n ss rqs = planning assign n ss rqs /\
+  fst (fst (planning_src g_copy_forward g_copy_reverse assign n ss rqs)) = n /\
+  map fst (snd (planning_src g_copy_forward g_copy_reverse assign n ss rqs)) = map (fun rq => fst (evaluate n rq)) rqs.
+Proof. intros. split; [apply gen_planning | apply source_batch_indep]. Qed.
+Print Assumptions C16_source_pipeline_is_planning.
+(* propagate_and_optimize_mode writes the designed gains back before every (baud, offset) propagation: inside a request
+   the figures are those of fresh propagations *)
+Theorem C16_source_mode_loop_restores : forall d ls p, same_shape d p ->
+  run_loads_src g_restores_gains d p ls = run_loads d p ls /\
+  snd (run_loads_src g_restores_gains d p ls) = fresh_runs d ls.
+Proof. intros d ls p H. split; [apply gen_run_loads | now apply source_request_fresh]. Qed.
+Print Assumptions C16_source_mode_loop_restores.
+(* the attributes compare_reqs compares (two requests that differ in one of them are never aggregated) and the order of the
+   steps of planning() *)
+Theorem C16_source_aggregation_and_steps :
+  g_compared_fields = aggregation_fields /\ g_pipeline = pipeline_steps.
+Proof. split; [exact gen_compared_fields | exact gen_pipeline]. Qed.
+Print Assumptions C16_source_aggregation_and_steps.
+(* no route memo across requests, no store into the process-wide simulation parameters, one result per request *)
+Theorem C16_source_isolation : g_route_memo = false /\ g_writes_sim_params = false /\ g_results_per_request = 1.
+Proof. exact gen_isolation. Qed.
+Print Assumptions C16_source_isolation.
+(* the selections are not vacuous: with another answer of the source the model's results do depend on what ran before *)
+Example ex_other_selection_differs :
+  map (fun x => r_ok (fst x)) (snd (planning_src false true next_slot w_net 0 [w_hot; w_cold])) <>
+  map (fun x => r_ok (fst x)) (snd (planning_src true true next_slot w_net 0 [w_hot; w_cold])) /\
+  snd (run_loads_src false w_path w_path [mkL 4 1 6; mkL 4 1 1]) <> snd (run_loads_src true w_path w_path [mkL 4 1 6; mkL 4 1 1]).
+Proof. exact other_selection_differs. Qed.
 
 (* the validator applied to observed behaviour decides its specification *)
 Theorem obs_ok_iff : forall o, obs_ok o = true <-> ObsSpec o.
